@@ -12,5 +12,10 @@ def run(repo, res, tier):
         "family) nor module/class-level state (E-GLOBAL on encoder.py). Not decided: value-level repeatability "
         "(e.g. iteration order of sets).")
     encrules.rule_a1(repo, res)
+    # the one permitted in-place change, module[k] = objcls(v), is 'replace the first pair named k' only while the
+    # container's two representations agree (key membership is decided on the dict storage, the pairs live in the
+    # list): a mutator that leaves them out of step turns the conversion into an append -- the dump adds an item
+    from .. import multidict
+    multidict.rule_m2(repo, res)
     effects.rule_estate(repo, res, families=("PVLEncoder",))
     effects.rule_globals(repo, res, modules=("encoder", "__init__", "new"), floor=20)
